@@ -67,7 +67,15 @@ type FailReader struct {
 	WithData bool
 	pos      int
 	Failed   bool
-	Consumed int // bytes handed out
+	Consumed int   // bytes handed out
+	Err      error // the error to fail with (default ErrInjected)
+}
+
+func (r *FailReader) err() error {
+	if r.Err != nil {
+		return r.Err
+	}
+	return ErrInjected
 }
 
 func (r *FailReader) Read(p []byte) (int, error) {
@@ -75,7 +83,7 @@ func (r *FailReader) Read(p []byte) (int, error) {
 		return 0, nil
 	}
 	if r.Failed {
-		return 0, ErrInjected
+		return 0, r.err()
 	}
 	limit := r.K
 	if limit > len(r.Data) {
@@ -86,7 +94,7 @@ func (r *FailReader) Read(p []byte) (int, error) {
 			return 0, io.EOF
 		}
 		r.Failed = true
-		return 0, ErrInjected
+		return 0, r.err()
 	}
 	n := limit - r.pos
 	if n > len(p) {
@@ -100,7 +108,7 @@ func (r *FailReader) Read(p []byte) (int, error) {
 	r.Consumed = r.pos
 	if r.pos >= limit && r.K < len(r.Data) && r.WithData {
 		r.Failed = true
-		return n, ErrInjected
+		return n, r.err()
 	}
 	return n, nil
 }
@@ -128,13 +136,21 @@ type Disk struct {
 	Calls  []int // length of every Write call seen
 	Failed bool
 	Fails  int
+	Err    error // the error to fail with (default ErrInjected)
+}
+
+func (d *Disk) err() error {
+	if d.Err != nil {
+		return d.Err
+	}
+	return ErrInjected
 }
 
 func (d *Disk) Write(p []byte) (int, error) {
 	d.Calls = append(d.Calls, len(p))
 	if d.Failed {
 		d.Fails++
-		return 0, ErrInjected
+		return 0, d.err()
 	}
 	if d.Limit < 0 || len(d.Stored)+len(p) <= d.Limit {
 		d.Stored = append(d.Stored, p...)
@@ -145,7 +161,7 @@ func (d *Disk) Write(p []byte) (int, error) {
 	if d.Short {
 		n := d.Limit - len(d.Stored)
 		d.Stored = append(d.Stored, p[:n]...)
-		return n, ErrInjected
+		return n, d.err()
 	}
-	return 0, ErrInjected
+	return 0, d.err()
 }
